@@ -285,7 +285,7 @@ def needs_loop(graph):
             return True
         if n['op'] == 'partition':      # ensure_io_loop=True even without a timeout
             return True
-        if n['op'] == 'sink' and n.get('kind', 'sync') != 'sync':
+        if n['op'] == 'sink' and n.get('kind', 'sync') not in ('sync', 'emit_into'):
             return True
     return False
 
@@ -405,7 +405,11 @@ def build_graph(ctx, source_kwargs):
             s = ups[0].latest()
         elif op == 'sink':
             kind = n.get('kind', 'sync')
-            if kind == 'sync':
+            if kind == 'emit_into':
+                # the idiom source.sink(other.emit): a consumer that pushes into another entry point
+                target = N[n['target']]
+                f = ctx.sync_fn(nid, lambda x, _t=target: _t.emit(x), kind='sink')
+            elif kind == 'sync':
                 f = ctx.sync_fn(nid, lambda x: None, kind='sink')
             else:
                 f = ctx.async_fn(nid, lambda x: None, 'sink', kind)
